@@ -1,7 +1,11 @@
 """property -> correspondence suites"""
-from .suites import pure, diff, walk, sync, proto, faults, metaonly
+from .suites import pure, diff, walk, sync, proto, faults, metaonly, wire
 
 PROPS = {
+    "C20": {
+        "suites": [wire.Frames, wire.WireValues, wire.WireBytes],
+        "assumptions": ["google.golang.org/protobuf is only the other party of a Go-side cross-decode, not modelled"],
+    },
     "C19": {
         "suites": [metaonly.MetaOnly],
         "assumptions": ["the listing file is decoded by the generic protobuf runtime in the harness"],
